@@ -2,6 +2,7 @@ package checks
 
 import (
 	"fmt"
+	"os"
 	"sort"
 	"strings"
 
@@ -194,10 +195,18 @@ func c10Eval(t *fw.T, c *fw.Case) {
 			return
 		}
 		if diff := jsonx.Diff(cb, canon(d.Root, "$"), "$"); diff != "" {
-			fail("entry-content-changes:"+diffClass(diff), "reordering the top-level declarations changes the content of an entry: "+diff)
 			if !strings.Contains(diff, "usedUserTypes") {
+				fail("entry-content-changes:"+diffClass(diff), "reordering the top-level declarations changes the content of an entry: "+diff)
 				return
 			}
+			// a used-type list differs. One cause is a recorded finding (transitive allOf bases are listed or not, depending
+			// on which type was processed first): the lists then differ only by types reachable through allOf rules from
+			// the entry's own bases, and agree on the order of everything else. Any other difference is reported apart.
+			if where, why := c10UsedTypesDiffer(cb, canon(d.Root, "$")); why != "" {
+				fail("entry-content-changes:usedUserTypes:"+why, "reordering the top-level declarations changes a list of used types other than by transitive allOf bases: "+where)
+				return
+			}
+			fail("entry-content-changes:$.userTypes.*.schema.usedUserTypes:differs", "reordering the top-level declarations changes the content of an entry: "+diff)
 			// the used-type lists are a recorded finding: keep looking at everything else
 			if diff2 := jsonx.Diff(stripKey(cb, "usedUserTypes"), stripKey(canon(d.Root, "$"), "usedUserTypes"), "$"); diff2 != "" {
 				fail("entry-content-changes:"+diffClass(diff2), "reordering the top-level declarations changes the content of an entry: "+diff2)
@@ -378,4 +387,151 @@ func c10EvalHostile(t *fw.T, c *fw.Case) {
 	}
 	t.Count("hostile_documents_" + base.Outcome)
 	t.Distinct(fmt.Sprintf("hostile n%d %s %s", len(blocks), base.Outcome, run.MsgTemplate(base.Msg)))
+}
+
+// c10UsedTypesDiffer compares every usedUserTypes list of two catalogs (same key sets). It returns "" when every
+// difference is of the recorded kind: the members that only one list has are reachable through allOf rules (at any depth
+// of the schemas) from an allOf base of the schema that owns the list, and the common members stand in the same order.
+func c10UsedTypesDiffer(a, b *jsonx.Node) (where, why string) {
+	// allOf edges between user types, taken from the catalog itself
+	edges := map[string][]string{}
+	allOfOf := func(n *jsonx.Node) []string {
+		var out []string
+		jsonx.Walk(n, "$", func(_ string, x *jsonx.Node) {
+			if x.Kind != 'o' {
+				return
+			}
+			for _, rule := range x.Get("rules").Arr0() {
+				if rule.Get("key").S() != "allOf" {
+					continue
+				}
+				if v := rule.Get("scalarValue").S(); v != "" {
+					out = append(out, v)
+				}
+				for _, ch := range rule.Get("children").Arr0() {
+					if v := ch.Get("scalarValue").S(); v != "" {
+						out = append(out, v)
+					}
+				}
+			}
+		})
+		return out
+	}
+	if ut := a.Get("userTypes"); ut != nil {
+		for i, k := range ut.Keys {
+			edges[k] = allOfOf(ut.Vals[i])
+		}
+	}
+	reach := func(from []string) map[string]bool {
+		seen := map[string]bool{}
+		var visit func(string)
+		visit = func(n string) {
+			for _, m := range edges[n] {
+				if !seen[m] {
+					seen[m] = true
+					visit(m)
+				}
+			}
+		}
+		for _, f := range from {
+			visit(f)
+		}
+		return seen
+	}
+	lists := func(root *jsonx.Node) (map[string][]string, map[string]*jsonx.Node) {
+		out := map[string][]string{}
+		owner := map[string]*jsonx.Node{}
+		jsonx.Walk(root, "$", func(path string, x *jsonx.Node) {
+			if x.Kind == 'o' && x.Has("usedUserTypes") {
+				out[path] = x.Get("usedUserTypes").Strings()
+				owner[path] = x
+			}
+		})
+		return out, owner
+	}
+	la, oa := lists(a)
+	lb, _ := lists(b)
+	var paths []string
+	for p := range la {
+		paths = append(paths, p)
+	}
+	for p := range lb {
+		if _, ok := la[p]; !ok {
+			paths = append(paths, p)
+		}
+	}
+	sort.Strings(paths)
+	for _, p := range paths {
+		x, y := la[p], lb[p]
+		if strings.Join(x, "\x00") == strings.Join(y, "\x00") {
+			continue
+		}
+		inX, inY := map[string]bool{}, map[string]bool{}
+		for _, v := range x {
+			inX[v] = true
+		}
+		for _, v := range y {
+			inY[v] = true
+		}
+		var cx, cy, only []string
+		for _, v := range x {
+			if inY[v] {
+				cx = append(cx, v)
+			} else {
+				only = append(only, v)
+			}
+		}
+		for _, v := range y {
+			if inX[v] {
+				cy = append(cy, v)
+			} else {
+				only = append(only, v)
+			}
+		}
+		desc := fmt.Sprintf("%s: %v vs %v", p, x, y)
+		if strings.Join(cx, "\x00") != strings.Join(cy, "\x00") {
+			return desc, "order-of-common-members"
+		}
+		own := oa[p]
+		if own == nil {
+			return desc, "list-appears"
+		}
+		r := reach(allOfOf(own))
+		for _, v := range only {
+			if !r[v] {
+				return desc, "member-not-a-transitive-base"
+			}
+		}
+	}
+	return "", ""
+}
+
+// aux c10diff <a.jst> <b.jst>: how the used-type lists of two orderings of one document differ (triage helper)
+func init() {
+	fw.RegisterAux("c10diff", func(args []string) int {
+		if len(args) < 2 {
+			return 2
+		}
+		var roots []*jsonx.Node
+		for _, f := range args[:2] {
+			b, err := os.ReadFile(f)
+			if err != nil {
+				fmt.Println(err)
+				return 2
+			}
+			o := run.Exec(run.Single(b), false)
+			if o.Outcome != run.Accepted {
+				fmt.Println(f, describe(o))
+				return 1
+			}
+			d, err := jsonx.Parse(o.JSON)
+			if err != nil {
+				return 2
+			}
+			roots = append(roots, canon(d.Root, "$"))
+		}
+		where, why := c10UsedTypesDiffer(roots[0], roots[1])
+		fmt.Printf("generic diff: %s\nused-type lists: why=%q where=%s\n", jsonx.Diff(roots[0], roots[1], "$"), why, where)
+		return 0
+	})
 }
